@@ -68,6 +68,18 @@ func NPMRange(r *rand.Rand) string {
 	for i := range alts {
 		alts[i] = alt()
 	}
+	if r.Intn(12) == 0 {
+		// Three alternatives: two spans share a lower bound, one of them ends at
+		// a prerelease, the other is widened by an adjoining third one.
+		lo, mid, hi := SemFull(r, false), SemFull(r, false), SemFull(r, false)
+		pre := SemFull(r, false) + "-" + Pick(r, "rc", "alpha.1", "0")
+		alts = []string{">=" + lo + " <" + mid, ">=" + mid + Pick(r, "", " <"+hi), lo + " - " + pre}
+		if r.Intn(2) == 0 {
+			alts[0] = Pick(r, "0.x", "1.x", lo[:1]+".x")
+		}
+		r.Shuffle(len(alts), func(i, j int) { alts[i], alts[j] = alts[j], alts[i] })
+		return strings.Join(alts, " || ")
+	}
 	if n >= 2 && r.Intn(3) == 0 {
 		// Alternatives that share a bound: the same version under operators
 		// that include and exclude it, with different other ends.
